@@ -30,7 +30,7 @@ RULE = (
     "percent/userSpaceOnUse, ids that look like generated ids), transforms; bodies contain shapes, groups with "
     "inherited attributes and typography / unknown attributes (font-size, font-family, letter-spacing, class, ...), <use>, clip paths, nested <svg>, <text>/<tspan> (passed through with allow_text), "
     "editor noise and unknown elements; about 40% of the documents are variants of an earlier document of the "
-    "batch (same body, other viewBox) and 0-2 repo files are mixed in. Per-document options: ndigits, allow_text, "
+    "batch (same body, other viewBox), a quarter is followed by a near-duplicate (same text with ONE presentation value altered: dash offset, width, cap, join, ...) and 0-2 repo files are mixed in. Per-document options: ndigits, allow_text, "
     "drop_unsupported, pretty_print, clip_to_viewbox. Configurations per case: 1-2 long-lived interpreters, each "
     "with a PYTHONHASHSEED from {0,1,2,12345} or a drawn 32-bit value ('random' made replayable) converting the "
     "batch in 3-8 Hypothesis-drawn permutations one after the other (optionally every document twice in a row), "
